@@ -25,6 +25,57 @@ def model_outcomes():
     return outs, r
 
 
+DEL_SCEN = {("p1a", "p1"): False, ("shared", "p1"): True}
+
+
+def delete_model_outcomes():
+    r = tlc.run_tlc("DeleteTxn", cfg_file="DeleteTxn.cfg", workers=4)
+    outs = {}
+    for line in r.printed("TXN"):
+        o = json.loads(line)
+        key = (o["shared"], o["mode"], o["fam"], o["dest"], o["nth"])
+        outs.setdefault(key, set()).add(
+            (o["res"], o["pref"], o["has"], tuple(o["pids"]), o["obj"]))
+    return outs, r
+
+
+def compare_delete(fault_results):
+    """spec/DeleteTxn.tla against the fault records of delete_object(p1) from `p1a` / `shared`."""
+    outs, r = delete_model_outcomes()
+    n, agree, missing, diffs = 0, 0, [], []
+    for res in fault_results:
+        c = res["call"]
+        sk = (res["start"], c["pid"])
+        if c["op"] != "delete" or sk not in DEL_SCEN:
+            continue
+        shared = DEL_SCEN[sk]
+        for x in res["faults"]:
+            fam, dest, nth = site_key(res["oplog"], x["k"])
+            if fam == "prep":
+                continue          # (directory probes of delete_metadata: no permanent file involved)
+            key = (shared, "persist" if x["mode"] == "persistent" else "once", fam, dest, nth)
+            post = x["post"]
+            pids = tuple({"p1": "p", "p2": "q"}.get(p, p) for p in post["cref"]["a"]["pids"])
+            seen = (x["res"]["cls"], "c" if post["pref"]["p1"] == "a" else post["pref"]["p1"],
+                    post["cref"]["a"]["has"], pids, post["obj"]["a"])
+            n += 1
+            allowed = outs.get(key, set())
+            if not allowed:
+                missing.append({"scenario": "%s/delete" % res["start"], "site": [fam, dest, nth],
+                                "mode": x["mode"]})
+            elif seen in allowed:
+                agree += 1
+            else:
+                diffs.append({"scenario": "%s/delete" % res["start"], "site": [fam, dest, nth],
+                              "mode": x["mode"], "code": list(seen),
+                              "model": [list(a) for a in sorted(allowed, key=str)]})
+    return {"tlc_ok": r.ok, "model_states": r.distinct,
+            "model_outcomes": sum(len(v) for v in outs.values()),
+            "fault_records_compared": n, "agree": agree, "no_model_site": missing[:5],
+            "n_no_model_site": len(missing), "differ": diffs[:5], "n_differ": len(diffs),
+            "invariants": ["RaisesUnlessDone", "OthersUntouched", "ErrorOnlyIfFault", "Unlocked"]}
+
+
 def site_key(oplog, k):
     """(family, destination kind, n-th site of that family and destination) of the k-th
     operation of the fault-free run."""
